@@ -12,10 +12,17 @@ EV_PER_MOLECULE = 1.602176487e-19 * 6.02214179e23
 E_UNITS = {'J/mol': 1.0, 'kJ/mol': 1e3, 'cal/mol': 4.184, 'kcal/mol': 4184.0,
            'eV/molecule': EV_PER_MOLECULE, 'MJ/mol': 1e6, 'mJ/mol': 1e-3,
            'J/mmol': 1e3, 'kcal/kmol': 4.184, 'hJ/mol': 100.0,
-           'daJ/mol': 10.0}
+           'daJ/mol': 10.0,
+           # other spellings of the same units (products, powers,
+           # juxtaposition, base units)
+           'J mol^-1': 1.0, 'kJ*mol^-1': 1e3, 'cal mol^(-1)': 4.184,
+           'kcal/(mol)': 4184.0, 'kg m^2/s^2/mol': 1.0, 'N m/mol': 1.0,
+           'kJ/kmol': 1.0, 'erg/molecule': 1e-7 * 6.02214179e23}
 S_UNITS = {'J/(mol*K)': 1.0, 'kJ/(mol*K)': 1e3, 'cal/(mol*K)': 4.184,
            'kcal/(mol*K)': 4184.0, 'eV/(molecule*K)': EV_PER_MOLECULE,
-           'J/mol/K': 1.0, 'cal/(mol K)': 4.184, 'mJ/(mol*K)': 1e-3}
+           'J/mol/K': 1.0, 'cal/(mol K)': 4.184, 'mJ/(mol*K)': 1e-3,
+           'J/(K*mol)': 1.0, 'J mol^-1 K^-1': 1.0, 'cal/K/mol': 4.184,
+           'J/mol K^-1': 1.0, 'kJ/(kmol*K)': 1.0}
 T_UNITS = {'K': 1.0, 'mK': 1e-3, 'kK': 1e3}
 BLOCK_E = ['kcal/mol', 'kJ/mol', 'J/mol', 'cal/mol', 'eV/molecule']
 BLOCK_S = ['cal/(mol*K)', 'J/(mol*K)', 'kJ/(mol*K)', 'kcal/(mol*K)',
